@@ -527,6 +527,44 @@ def _shape_shard(arg):
     return st
 
 
+def _opcode_shard(arg):
+    """Every byte value as a script token, in every spend form, handed to the engine with a spend that genuinely commits to
+    the script (a real control block / script hash): the engine returns or raises its own exception, on both arms."""
+    firsts, serving = arg
+    signal.signal(signal.SIGALRM, _alarm)
+    from btclib.script.engine import verify_input
+    from btclib.script.witness import Witness
+    from btclib.tx import OutPoint, Tx, TxIn, TxOut
+    from models import taproot_ref as TRm
+    from models.bip32_ref import h160 as _h160
+
+    st = Stats()
+    nums = bytes.fromhex("50929b74c1a04954b78b4b6035e97a5e078a5a0f28ec96d547bfee9ace803ac0")
+    with backend(serving):
+        for b in firsts:
+            for script in (bytes([b]), bytes([0x51, b]), bytes([b, 0x51]), bytes([0x00, 0x63, b, 0x68, 0x51]), bytes([b, b])):
+                for form in ("tapscript", "p2wsh", "p2sh", "bare"):
+                    if form == "tapscript":
+                        lh = TRm.leaf_hash(0xC0, script)
+                        qx, par = TRm.tweak_pubkey(int.from_bytes(nums, "big"), lh)
+                        spk, ssig, wit = b"\x51\x20" + qx.to_bytes(32, "big"), b"", [script, bytes([0xC0 | par]) + nums]
+                    elif form == "p2wsh":
+                        spk, ssig, wit = b"\x00\x20" + hashlib.sha256(script).digest(), b"", [script]
+                    elif form == "p2sh":
+                        spk, ssig, wit = b"\xa9\x14" + _h160(script) + b"\x87", bytes([len(script)]) + script, []
+                    else:
+                        spk, ssig, wit = script, b"", []
+                    tx = Tx(2, 0, [TxIn(OutPoint(b"\x07" * 32, 0), ssig, 0xFFFFFFFD, Witness(wit), check_validity=False)], [TxOut(1, b"\x51", check_validity=False)], check_validity=False)
+                    prevouts = [TxOut(1000, spk, check_validity=False)]
+                    st.nontrivial += 1
+                    contract_call(st, "C19/opcode/verify_input/" + form, lambda t: verify_input(prevouts, t, 0), tx, {"script": script.hex(), "form": form, "bindings": serving})
+    return st
+
+
+def consumer_opcodes(ctx):
+    return ctx.pmap(_opcode_shard, [(list(range(a, a + 16)), serving) for a in range(0, 256, 16) for serving in (True, False)])
+
+
 def consumer_shapes(ctx):
     shapes = [(a, b) for a in (1, 2, 3) for b in (0, 1, 2, 3)]
     return ctx.pmap(_shape_shard, [([sh], serving) for sh in shapes for serving in (True, False)])
@@ -545,4 +583,5 @@ SUBS = [
     ("predicates", predicates),
     ("consumers", consumers),
     ("consumer_shapes", consumer_shapes),
+    ("consumer_opcodes", consumer_opcodes),
 ]
